@@ -35,6 +35,9 @@ CONSTANTS
   Statuses,   \* subset of {301, 302, 303, 307, 308}
   Forms,      \* subset of {"abs", "absuc", "noscheme", "hostrel", "rel"}
   Methods,    \* subset of {"GET", "HEAD", "POST", "PUT", "PATCH"}  (POST/PUT/PATCH carry a body)
+  Origins,    \* how the initial request object was produced: subset of {"setters", "wire", "server"}
+              \* (built with setters / parsed from wire bytes by Request.Read / a live server
+              \* handler's ctx.Request); the design treats them alike - credentials are credentials
   MaxSet,     \* values of maxRedirectsCount
   MaxHops     \* exploration bound: redirect responses issued by the server
 
@@ -97,7 +100,7 @@ HasBody(m) == m \in {"POST", "PUT", "PATCH"}
 NoReq == [trusted |-> TRUE, creds |-> FALSE, method |-> "", body |-> "no"]
 
 VARIABLES
-  sc,       \* scenario: [init, method, max]
+  sc,       \* scenario: [init, method, max, origin]
   cur,      \* spelling id of the current URL's authority
   pathOk,   \* TRUE iff the current URL's path is /d/r<k> (k = hops so far)
   method, body,   \* body \in {"yes", "no", "any"}
@@ -119,7 +122,7 @@ InitSc(s) ==
   /\ creds = TRUE /\ nredir = 0 /\ phase = "send" /\ result = "none" /\ lastSt = 0
   /\ prev = NoReq /\ last = NoReq /\ hops = <<>> /\ sent = <<>>
 
-Init == \E s \in [init : Inits, method : Methods, max : MaxSet] : InitSc(s)
+Init == \E s \in [init : Inits, method : Methods, max : MaxSet, origin : Origins] : InitSc(s)
 
 PathOf(k, ok) == IF ok THEN "/d/r" \o ToString(k) ELSE "*"
 
@@ -233,6 +236,8 @@ AllTargets == SpellIds
 AllStatuses == {301, 302, 303, 307, 308}
 AllForms == {"abs", "absuc", "noscheme", "hostrel", "rel"}
 AllMethods == {"GET", "HEAD", "POST", "PUT", "PATCH"}
+AllOrigins == {"setters", "wire", "server"}
+SetterOrigin == {"setters"}
 \* reduced menus (exhaustive two-hop chains; quick model check)
 KeyInits == {"same", "upport", "sub", "ip6"}
 KeyTargets == {"same", "port", "sub", "subsub", "prefix", "suffix", "atevil", "other", "ip6port", "ip6look", "pctdot"}
